@@ -58,6 +58,10 @@ SEED_NOTES = {
     "C20-r7a": "caught after keysends through a stateless approver were added to the programs (first run: missed).",
     "C07-r7a": "caught after the replaced holder commitment also went through the raw entry point (first run: missed).",
     "C01-r7a": "caught by the carve-out filter dimension added in the same round.",
+    "C11-r6b": "a pure interleaving defect filed under C11 (allowlist written outside the node-state lock); caught by the C20 check (two racing allowlist requests, a fixed case since round 8).",
+    "C20-r6a": "the same change as C11-r6b; caught by the fixed case [[Allowlist], [Allowlist]] (in-place run; the random programs of seed 1 no longer contain two racing allowlist requests since the request mix grew).",
+    "C17-r6a": "a store defect filed under C17 (redb batch-mismatch flag overwritten); caught by the C16 check (C16:redb.put_batch).",
+    "C17-r6b": "a store defect filed under C17 (redb version cache rebuilt without tombstones); caught by the C16 check (C16:redb.version_cache).",
     "C02-r8a": "caught after the carve-out filter also ran with the on-chain validator factory (written before the first run).",
     "C07-r8a": "caught by the carve-out filter dimension added to C07 because of this change (written before the first run).",
     "C08-r8a": "caught after the wire group got an input the request does not describe at all (written before the first run).",
